@@ -46,6 +46,11 @@ def run(tier, seed, res, lean):
         res.violations.append(Violation('c04-columns', b['msg'][:400], {'suite': 'S-COL', **b}))
     for b in alias_bad[:3]:
         res.violations.append(Violation('c04-columns-ids', b['msg'][:400], {'suite': 'S-COL', **b}))
+    # concrete values (numpy arrays, dicts with unusual keys, nested containers, ...) through the default serializers
+    zoo_bad, zoo_calls = suite_cache.run_value_zoo(paths.SCRATCH)
+    for b in zoo_bad[:4]:
+        res.violations.append(Violation('c04-value-roundtrip', b['msg'][:400], {'suite': 'S-CACHE/values', **b}))
+    res.coverage['value_zoo_calls'] = zoo_calls
     for b in fault_bad[:3]:
         res.violations.append(Violation('c04-columns-after-failure', b['msg'][:400], {'suite': 'S-COL', **b}))
     # S-STOP: a field that raises StopIteration below a column cache / a plain pipeline
